@@ -96,7 +96,7 @@ theorem gcStep_run (m : Mgr) (u : Nat) (n : Nd) (work : List Nat) (ra rb : Nat) 
   simp only [refOfExact, hneg, if_false, e3]
   rfl
 
-theorem mem_pushNew (l : List Nat) (u k : Nat) : k ∈ pushNew l u ↔ k ∈ l ∨ k = u := by
+theorem gc_mem_pushNew (l : List Nat) (u k : Nat) : k ∈ pushNew l u ↔ k ∈ l ∨ k = u := by
   unfold pushNew
   split
   · next h =>
@@ -124,7 +124,7 @@ theorem mem_two_push (work : List Nat) (a b : Nat) (p q : Bool) (k : Nat) :
     k ∈ (if q = true then pushNew (if p = true then pushNew work a else work) b
           else (if p = true then pushNew work a else work)) ↔
       (k ∈ work ∨ (k = a ∧ p = true) ∨ (k = b ∧ q = true)) := by
-  cases p <;> cases q <;> simp [mem_pushNew, or_assoc]
+  cases p <;> cases q <;> simp [gc_mem_pushNew, or_assoc]
 
 theorem mem_gcWork (n : Nd) (work : List Nat) (ra rb k : Nat) :
     k ∈ gcWork n work ra rb ↔ (k ∈ work ∨
